@@ -113,6 +113,16 @@ CLAIMS = {
         "Moon.apparent_ecliptical_pos / Sun.apparent_geocentric_position into the checks.",
    technique="TLA+ orbit invariants + finder protocol as action properties; trace validation with verified witnesses",
    ref="5/C15"),
+ "C14": dict(
+   text="Trace_Sun.tla judges: every season instant against the library's own apparent solar longitude (1e-5 deg), season order, "
+        "spacing and year length as action properties over the (year, season) sequence, range refusal; the equation of time "
+        "bound and daily change over consecutive days; sunrise/sunset altitudes and hour-angle signs computed from the library's "
+        "own position/sidereal time; and the general rise/transit/set routine through the altitude identity on verified "
+        "sine/cosine witnesses, meridian condition at transit and the None-iff-never-crosses law.",
+   note="Trusted: TLC, Fix.tla, math.sin/cos/sqrt witnesses (norms and squares verified in the spec), the harness wiring of "
+        "Sun.apparent_geocentric_position, true_obliquity, apparent_sidereal_time and equatorial2horizontal.",
+   technique="TLA+ trace specification with action properties over ordered seasons/days; verified trigonometric witnesses",
+   ref="5/C14"),
 }
 
 PENDING_REASON = "check not built yet in this round (specification module planned in DESIGN.md section 5); not claimed until its trace specification validates the unchanged tree"
